@@ -1154,7 +1154,12 @@ def _stdin_fix(
     result = linter.lint_string_wrapped(
         stdin, fname="stdin", fix=True, stdin_filename=stdin_filename
     )
-    templater_error = result.num_violations(types=SQLTemplaterError) > 0
+    # NOTE: With `fix_even_unparsable` a templating error doesn't abort the fix
+    # (nor does it fail the run when fixing by path), so don't claim it does.
+    templater_error = (
+        not fix_even_unparsable
+        and result.num_violations(types=SQLTemplaterError) > 0
+    )
     unfixable_error = result.num_violations(types=SQLLintError, fixable=False) > 0
 
     exit_code = _handle_unparsable(fix_even_unparsable, exit_code, result, formatter)
